@@ -5,6 +5,7 @@
   with `f` (`cii_mapCp`, `paraLevels_mapCp`, `pbi_mapCp`).
 -/
 import UBidi.Model.Reorder
+import UBidi.Lemmas.C02Width
 namespace UBidi.Lemmas.C12Units
 open UBidi BidiClass
 
@@ -16,21 +17,36 @@ def mapCp (f : Nat → Nat) (t : Text) : Text :=
 def comap (ds : DataSource) (f : Nat → Nat) : DataSource :=
   { cls := fun c => ds.cls (f c), brk := fun c => ds.brk (f c) }
 
+theorem charAt_mapCp (f : Nat → Nat) (t : Text) (i : Nat) :
+    (mapCp f t).charAt i = (t.charAt i).map (fun s => { s with cp := f s.cp }) := by
+  simp only [Text.charAt, mapCp, List.find?_map]
+  rfl
+
+/-- relabelling keeps the width of the character at an offset -/
+theorem widthAt_mapCp (f : Nat → Nat) (t : Text) : C02.widthAt (mapCp f t) = C02.widthAt t := by
+  funext k
+  simp only [C02.widthAt, charAt_mapCp]
+  cases t.charAt k <;> rfl
+
 /-- `compute_initial_info` -/
 theorem cii_mapCp (ds : DataSource) (f : Nat → Nat) (t : Text) (henc : t.enc = .utf32) (d : Option Nat) (split : Bool) :
     computeInitialInfo ds (mapCp f t) d split = computeInitialInfo (comap ds f) t d split := by
   have hstep : ∀ (st : IIState) (s : Seg),
-      iiStep ds .utf32 split d st { s with cp := f s.cp } = iiStep (comap ds f) .utf32 split d st s :=
-    fun _ _ => rfl
+      iiStep ds (mapCp f t) split d st { s with cp := f s.cp } = iiStep (comap ds f) t split d st s := by
+    intro st s
+    rw [C02.iiStep_eq, C02.iiStep_eq, widthAt_mapCp, show (mapCp f t).enc = t.enc from rfl, henc]
+    rfl
   have hfold : ∀ (l : List Seg) (st : IIState),
-      (l.map (fun s => { s with cp := f s.cp })).foldl (iiStep ds .utf32 split d) st
-        = l.foldl (iiStep (comap ds f) .utf32 split d) st := by
+      (l.map (fun s => { s with cp := f s.cp })).foldl (iiStep ds (mapCp f t) split d) st
+        = l.foldl (iiStep (comap ds f) t split d) st := by
     intro l
     induction l with
     | nil => intro st; rfl
     | cons s ss ih => intro st; simp only [List.map_cons, List.foldl_cons, hstep, ih]
   unfold computeInitialInfo
-  simp only [mapCp, henc, hfold]
+  have hsegs : (mapCp f t).segs = t.segs.map (fun s => { s with cp := f s.cp }) := rfl
+  have hlen : (mapCp f t).len = t.len := rfl
+  simp only [hsegs, hlen, hfold]
 
 /-- `explicit::compute` does not look at the scalar values -/
 theorem explicit_mapCp (f : Nat → Nat) (t : Text) (pl : Nat) (ocs : List BidiClass) :
@@ -49,11 +65,6 @@ theorem explicit_mapCp (f : Nat → Nat) (t : Text) (pl : Nat) (ocs : List BidiC
   rw [show (mapCp f t).len = t.len from rfl,
     show (mapCp f t).segs = t.segs.map (fun s => { s with cp := f s.cp }) from rfl]
   simp only [hfold]
-
-theorem charAt_mapCp (f : Nat → Nat) (t : Text) (i : Nat) :
-    (mapCp f t).charAt i = (t.charAt i).map (fun s => { s with cp := f s.cp }) := by
-  simp only [Text.charAt, mapCp, List.find?_map]
-  rfl
 
 theorem charAt_len_mapCp (f : Nat → Nat) (t : Text) :
     (fun i => ((mapCp f t).charAt i).map (·.len)) = (fun i => (t.charAt i).map (·.len)) := by
